@@ -430,6 +430,42 @@ example : unicodeDammit [nWindows1252] none .none [0x93, 0xE9, 0x9F] = .ok [0x20
 example : decodeTable Gen.Detwingle.cp1252 (stripBom [0x93, 0xE9, 0x9F]).1 = some [0x201C, 0xE9, 0x178] :=
   of_evalsTo (by decide +kernel)
 
+/-- The other routes by which an encoding reaches the constructor.  (i) `override_encodings` (deprecated) is
+    appended to the known encodings and `user_encodings` comes after the byte-order mark: whenever the first
+    of `known ++ override` resolves and converts, that is the result, whatever `user_encodings` holds.
+    (ii) With no known encodings and no byte-order mark, the first `user_encodings` entry plays that role.
+    (iii) With no encodings at all, no byte-order mark, no declaration and input that is not valid UTF-8, the
+    documented last resort `windows-1252` converts the input — smart quotes included. -/
+theorem constructor_routes (mode : Mode) (markup : Bytes) (u : PStr) :
+    (∀ known override user declared enc rest r, known ++ override = enc :: rest → markup ≠ [] → findCodec enc = some r →
+        convertFrom r mode (stripBom markup).1 = some u →
+        unicodeDammitFull known override user declared mode markup = .ok u false (some r)) ∧
+    (∀ enc rest declared r, markup ≠ [] → stripBom markup = (markup, none) → findCodec enc = some r →
+        convertFrom r mode markup = some u →
+        unicodeDammitFull [] [] (enc :: rest) declared mode markup = .ok u false (some r)) ∧
+    (stripBom markup = (markup, none) → decodeUtf8 markup = none → convertFrom nWindows1252 mode markup = some u →
+        unicodeDammitFull [] [] [] none mode markup = .ok u false (some nWindows1252)) := by
+  refine ⟨?_, ?_, ?_⟩
+  · intro known override user declared enc rest r hk hne hf h
+    unfold unicodeDammitFull
+    rw [hk]
+    exact unicodeDammitWithU_first liveTables enc r rest user declared mode markup u hne hf h
+  · intro enc rest declared r hne hb hf h
+    exact unicodeDammitWithU_user_first liveTables enc r rest declared mode markup u hne hb hf h
+  · intro hb hd h
+    exact unicodeDammitWithU_default_route liveTables mode markup u (of_evalsTo (by decide +kernel)) (by decide +kernel)
+      (by decide +kernel) (of_evalsTo (by decide +kernel)) hb hd h
+
+example : unicodeDammitFull [] [nLatin1] [nIso88592] none .html [0x93] = .ok [0x93] false (some nLatin1) :=
+  of_evalsTo (by decide +kernel)
+example : unicodeDammitFull [] [] [nIso88592] none .html [0x93] = .ok (ofS "&ldquo;") false (some nIso88592) :=
+  of_evalsTo (by decide +kernel)
+example : unicodeDammitFull [] [] [] none .html [0x93] = .ok (ofS "&ldquo;") false (some nWindows1252) :=
+  of_evalsTo (by decide +kernel)
+example : stripBom [0x93] = ([0x93], none) ∧ decodeUtf8 [0x93] = none := ⟨by decide, of_evalsTo (by decide +kernel)⟩
+/-- valid UTF-8 on the default route is read as UTF-8: no byte is a smart quote then -/
+example : unicodeDammitFull [] [] [] none .html [0xC2, 0x93] = .ok [0x93] false (some nUtf8) := of_evalsTo (by decide +kernel)
+
 /-- A process as a sequence of constructor calls.  The code-mirror threads the only state the calls
     could share — none: `tried_encodings` is reset per object (dammit.py:778) and `find_codec` reads only
     class constants — so every call's outcome is what the same call gives on its own, whatever came
@@ -438,8 +474,14 @@ theorem call_outcome_independent_of_history (before : List DammitCall) (c : Damm
     (runCalls (before ++ c :: after))[before.length]? = some (runCall c) := by
   rw [runCalls_eq_map]; simp
 
-example : runCalls [⟨[ofS "ISO_8859-1"], none, .xml, [0x93]⟩, ⟨[nIso88591], none, .xml, [0x93]⟩]
+example : runCalls [{ known := [ofS "ISO_8859-1"], declared := none, mode := .xml, markup := [0x93] },
+      { known := [nIso88591], declared := none, mode := .xml, markup := [0x93] }]
     = [.ok [0x93] false (some (ofS "iso_8859-1")), .ok (ofS "&#x201C;") false (some nIso88591)] :=
+  of_evalsTo (by decide +kernel)
+/-- an earlier call with `override_encodings` leaves nothing behind for a later default-route call -/
+example : runCalls [{ known := [], declared := none, mode := .none, markup := [0x93], override := [nLatin1] },
+      { known := [], declared := none, mode := .html, markup := [0x93] }]
+    = [.ok [0x93] false (some nLatin1), .ok (ofS "&ldquo;") false (some nWindows1252)] :=
   of_evalsTo (by decide +kernel)
 
 example : convertFrom nWindows1252 .html (ofS "a" ++ [0x93, 0xE9, 0x94]) =
